@@ -112,14 +112,34 @@ def ground_refine():
         out.append((f"refine/{name}/refined-query-parses", len(parsed) == 1, f"{len(parsed)} assertion(s)"))
         got = z3.And(*parsed) if len(parsed) else z3.BoolVal(True)
         want = D == r
-        s = z3.Solver()
-        s.set("timeout", _tier_ms(QUICK_MS))
-        s.add(got != want)
-        res = s.check()
-        detail = f"for all {n}-bit x,y,r: refined[{name}(x,y) = r]  <=>  D_f(x,y) = r   [{res}]"
-        if res == z3.sat:
-            m = s.model()
-            detail += f" counterexample x={m.eval(x, model_completion=True)} y={m.eval(y, model_completion=True)} r={m.eval(r, model_completion=True)}"
+        # probe points first (ground evaluation: cheap and independent of solver load): boundary operands, y = 0 included
+        probe = None
+        mx = (1 << n) - 1
+        for xv, yv in ((7, 0), (0, 0), (mx, 0), (7, 2), (mx, 3), (mx - 6, 2), (1 << (n - 1), mx), (5, mx)):
+            sub = [(x, z3.BitVecVal(xv, n)), (y, z3.BitVecVal(yv, n))]
+            dv = z3.simplify(z3.substitute(D, *sub))
+            if not z3.is_bv_value(dv):
+                continue
+            for rv in (dv.as_long(), (dv.as_long() + 1) & mx):
+                g_ = z3.simplify(z3.substitute(got, *sub, (r, z3.BitVecVal(rv, n))))
+                w_ = z3.simplify(z3.substitute(want, *sub, (r, z3.BitVecVal(rv, n))))
+                if (z3.is_true(g_) or z3.is_false(g_)) and (z3.is_true(w_) or z3.is_false(w_)) and z3.is_true(g_) != z3.is_true(w_):
+                    probe = (xv, yv, rv)
+                    break
+            if probe:
+                break
+        if probe:
+            res = z3.sat
+            detail = f"refined[{name}(x,y) = r] and D_f(x,y) = r differ at x={probe[0]:#x} y={probe[1]:#x} r={probe[2]:#x} (ground evaluation)"
+        else:
+            s = z3.Solver()
+            s.set("timeout", _tier_ms(QUICK_MS))
+            s.add(got != want)
+            res = s.check()
+            detail = f"for all {n}-bit x,y,r: refined[{name}(x,y) = r]  <=>  D_f(x,y) = r   [{res}]"
+            if res == z3.sat:
+                m = s.model()
+                detail += f" counterexample x={m.eval(x, model_completion=True)} y={m.eval(y, model_completion=True)} r={m.eval(r, model_completion=True)}"
         out.append((f"refine/{name}/equals-exact-EVM-definition", _tri(res), detail, "z3-4.12.6"))
         # D_f itself against the word spec used by C06 (one table, two users)
         specname = {"bvudiv": "DIV", "bvurem": "MOD", "bvsdiv": "SDIV", "bvsrem": "SMOD", "bvmul": "MUL"}[name.split("_")[2]]
